@@ -101,7 +101,7 @@ static int c03_script(unsigned long long seed, int nc, int progressive, jpeg_sca
   return n;
 }
 
-typedef struct { int ss, w, h, prec, kind, mode, ri, rirows, nc, qk; unsigned long long seed, sseed; } c03_job;
+typedef struct { int ss, w, h, prec, kind, mode, ri, rirows, nc, qk, mk; unsigned long long seed, sseed; } c03_job;
 
 /* set the entropy-coding parameters of a compressor for `mode` */
 static void c03_setmode(struct jpeg_compress_struct *c, c03_job *j, int mode, jpeg_scan_info *scans)
@@ -151,6 +151,13 @@ static int c03_build(c03_job *j, unsigned char **out, unsigned long *outsize, in
     arrays[ci] = (*c.mem->request_virt_barray) ((j_common_ptr)&c, JPOOL_IMAGE, TRUE, pwb, phb, (JDIMENSION)cvs);
   }
   jpeg_write_coefficients(&c, arrays);
+  if (j->mk) {
+    /* extra marker segments: a small or a maximum-length COM, an APP3 */
+    static unsigned char big[65533]; unsigned i; unsigned clen = j->mk == 1 ? 11 : j->mk == 2 ? 65533 : 700, alen = j->mk == 2 ? 5000 : 3;
+    for (i = 0; i < sizeof(big); i++) big[i] = (unsigned char)(i * 7 + j->mk + (i >> 8));
+    jpeg_write_marker(&c, JPEG_COM, big, clen);
+    jpeg_write_marker(&c, JPEG_APP0 + 3, big + 17, alen);
+  }
   for (ci = 0; ci < j->nc; ci++) {
     int chs = c.comp_info[ci].h_samp_factor, cvs = c.comp_info[ci].v_samp_factor;
     JDIMENSION wb = (JDIMENSION)((((long)j->w * chs + hs * 8 - 1) / (hs * 8))), hb = (JDIMENSION)((((long)j->h * cvs + vs * 8 - 1) / (vs * 8))), by, bx;
@@ -221,7 +228,7 @@ static int c03_ent(toks_t *t)
   const unsigned char *fin; unsigned long fn;
   j.ss = (int)tl(t, 1); j.w = (int)tl(t, 2); j.h = (int)tl(t, 3); j.prec = (int)tl(t, 4); j.seed = (unsigned long long)tll(t, 5); j.kind = (int)tl(t, 6);
   j.mode = (int)tl(t, 7); j.ri = (int)tl(t, 8); j.rirows = (int)tl(t, 9); j.sseed = (unsigned long long)tll(t, 10);
-  j.qk = t->n > 12 ? (int)tl(t, 12) : 0;
+  j.qk = t->n > 12 ? (int)tl(t, 12) : 0; j.mk = t->n > 13 ? (int)tl(t, 13) : 0;
   j.nc = j.ss == 3 ? 1 : (j.ss >= 100 ? 4 : 3);
   if (j.ss >= 100) j.ss -= 100;
   if (!c03_build(&j, &jp, &n, &err)) { printf("R skip err build %d\n", err); printf("O fail ent: compressor rejected a valid request (code %d)\n", err); goto done; }
@@ -241,13 +248,36 @@ done:
   return 1;
 }
 
+/* print what the independent decoder prints for a decoded coefficient set */
+static void c03_t81_print(struct jpeg_decompress_struct *d, jvirt_barray_ptr *arr, int nwarn, char *got, size_t gotsz)
+{
+  int ci, k;
+  if (got) got[0] = 0;
+  if (d->arith_code) { printf("R skip arith\n"); return; }
+  printf("R ok P%d %ux%u nc%d prog%d ri%u scans%d |", d->data_precision, d->image_width, d->image_height, d->num_components, d->progressive_mode ? 1 : 0, d->restart_interval, d->input_scan_number);
+  for (ci = 0; ci < d->num_components; ci++) {
+    jpeg_component_info *cp = &d->comp_info[ci]; JDIMENSION by, bx; unsigned long long h = 14695981039346656037ULL, hq = 14695981039346656037ULL;
+    for (by = 0; by < cp->height_in_blocks; by++) {
+      JBLOCKARRAY ba = (*d->mem->access_virt_barray) ((j_common_ptr)d, arr[ci], by, 1, FALSE);
+      for (bx = 0; bx < cp->width_in_blocks; bx++) for (k = 0; k < 64; k++) {
+        int v = ba[0][bx][k];
+        h ^= (unsigned long long)(v & 255); h *= 1099511628211ULL; h ^= (unsigned long long)((v >> 8) & 255); h *= 1099511628211ULL;
+      }
+    }
+    if (cp->quant_table) for (k = 0; k < 64; k++) { unsigned v = cp->quant_table->quantval[k]; hq ^= v & 255; hq *= 1099511628211ULL; hq ^= v >> 8; hq *= 1099511628211ULL; }
+    printf(" %d%d q%llu %ux%u %llu", cp->h_samp_factor, cp->v_samp_factor, hq, cp->width_in_blocks, cp->height_in_blocks, h);
+    if (got) snprintf(got + strlen(got), gotsz - strlen(got), "%s%llu", ci ? "," : "", h);
+  }
+  printf(" w%d\n", nwarn);
+}
+
 /* t81 hex | t81c h1,h2,.. hex : decode with libjpeg-turbo, print what the independent decoder prints;
    t81c additionally compares the per-component coefficient digests with the ones given */
 static int c03_t81(toks_t *t)
 {
-  int withexp = !strcmp(t->tok[0], "t81c"); const char *expect = withexp ? t->tok[1] : NULL; char got[400] = ""; 
+  int withexp = !strcmp(t->tok[0], "t81c"); const char *expect = withexp ? t->tok[1] : NULL; char got[400] = "";
   size_t n; unsigned char *b = hex2bytes(t->tok[withexp ? 2 : 1], &n);
-  struct jpeg_decompress_struct d; my_err_t e; jvirt_barray_ptr *arr; int ci, k;
+  struct jpeg_decompress_struct d; my_err_t e; jvirt_barray_ptr *arr;
   d.err = my_err_init(&e);
   jpeg_create_decompress(&d);
   if (setjmp(e.jb)) {
@@ -258,28 +288,11 @@ static int c03_t81(toks_t *t)
   jpeg_mem_src(&d, b, n);
   jpeg_read_header(&d, TRUE);
   arr = jpeg_read_coefficients(&d);
-  if (d.arith_code) { printf("R skip arith\n"); }
-  else {
-    printf("R ok P%d %ux%u nc%d prog%d ri%u scans%d |", d.data_precision, d.image_width, d.image_height, d.num_components, d.progressive_mode ? 1 : 0, d.restart_interval, d.input_scan_number);
-    for (ci = 0; ci < d.num_components; ci++) {
-      jpeg_component_info *cp = &d.comp_info[ci]; JDIMENSION by, bx; unsigned long long h = 14695981039346656037ULL, hq = 14695981039346656037ULL;
-      for (by = 0; by < cp->height_in_blocks; by++) {
-        JBLOCKARRAY ba = (*d.mem->access_virt_barray) ((j_common_ptr)&d, arr[ci], by, 1, FALSE);
-        for (bx = 0; bx < cp->width_in_blocks; bx++) for (k = 0; k < 64; k++) {
-          int v = ba[0][bx][k];
-          h ^= (unsigned long long)(v & 255); h *= 1099511628211ULL; h ^= (unsigned long long)((v >> 8) & 255); h *= 1099511628211ULL;
-        }
-      }
-      if (cp->quant_table) for (k = 0; k < 64; k++) { unsigned v = cp->quant_table->quantval[k]; hq ^= v & 255; hq *= 1099511628211ULL; hq ^= v >> 8; hq *= 1099511628211ULL; }
-      printf(" %d%d q%llu %ux%u %llu", cp->h_samp_factor, cp->v_samp_factor, hq, cp->width_in_blocks, cp->height_in_blocks, h);
-      snprintf(got + strlen(got), sizeof(got) - strlen(got), "%s%llu", ci ? "," : "", h);
-    }
-    printf(" w%d\n", e.nwarn);
-    if (withexp) {
-      if (strcmp(got, expect)) printf("O fail t81c: libjpeg-turbo decoded coefficient digests %s from a conforming stream whose writer put in %s\n", got, expect);
-      else if (e.nwarn) printf("O fail t81c: libjpeg-turbo warned %d times on a conforming stream\n", e.nwarn);
-      else printf("O ok\n");
-    }
+  c03_t81_print(&d, arr, e.nwarn, got, sizeof(got));
+  if (withexp && !d.arith_code) {
+    if (strcmp(got, expect)) printf("O fail t81c: libjpeg-turbo decoded coefficient digests %s from a conforming stream whose writer put in %s\n", got, expect);
+    else if (e.nwarn) printf("O fail t81c: libjpeg-turbo warned %d times on a conforming stream\n", e.nwarn);
+    else printf("O ok\n");
   }
   jpeg_finish_decompress(&d);
   jpeg_destroy_decompress(&d);
